@@ -46,6 +46,119 @@ theorem IndexSite.ok_sound (s : IndexSite) (hok : s.ok = true) (len : Nat)
     simp only [Bool.and_eq_true, decide_eq_true_eq] at hok
     simp only [Idx.inRange]; omega
 
+/-! ## argument slices: soundness of `ArgIndexSite.ok` -/
+
+theorem LenCond.eval_iff (c : LenCond) (len : Nat) : c.eval len = true ↔ c.holds len := by
+  cases c <;> simp [LenCond.eval, LenCond.holds]
+
+theorem LenProp.eval_iff (p : LenProp) (len i : Nat) :
+    p.eval len (decide (i < len)) = true ↔ p.holds len i := by
+  induction p with
+  | atom c => simp only [LenProp.eval, LenProp.holds]; exact LenCond.eval_iff c len
+  | varLt => simp [LenProp.eval, LenProp.holds]
+  | and a b iha ihb => simp only [LenProp.eval, LenProp.holds, Bool.and_eq_true, iha, ihb]
+  | or a b iha ihb => simp only [LenProp.eval, LenProp.holds, Bool.or_eq_true, iha, ihb]
+
+/-- beyond its constant a comparison no longer changes -/
+theorem LenCond.eval_stable (c : LenCond) (L len : Nat) (h1 : c.bound < L) (h2 : L ≤ len) :
+    c.eval len = c.eval L := by
+  cases c with
+  | ge k => simp only [LenCond.bound] at h1; simp only [LenCond.eval]; rw [decide_eq_decide]; omega
+  | lt k => simp only [LenCond.bound] at h1; simp only [LenCond.eval]; rw [decide_eq_decide]; omega
+  | eq k => simp only [LenCond.bound] at h1; simp only [LenCond.eval]; rw [decide_eq_decide]; omega
+  | notLt k =>
+    simp only [LenCond.bound] at h1; simp only [LenCond.eval]
+    congr 1; rw [decide_eq_decide]; omega
+  | notEq k =>
+    simp only [LenCond.bound] at h1; simp only [LenCond.eval]
+    congr 1; rw [decide_eq_decide]; omega
+
+theorem LenProp.eval_stable (p : LenProp) (L len : Nat) (vlt : Bool) (h1 : p.bound < L) (h2 : L ≤ len) :
+    p.eval len vlt = p.eval L vlt := by
+  induction p with
+  | atom c => exact LenCond.eval_stable c L len h1 h2
+  | varLt => rfl
+  | and a b iha ihb =>
+    simp only [LenProp.bound] at h1
+    simp only [LenProp.eval, iha (by omega), ihb (by omega)]
+  | or a b iha ihb =>
+    simp only [LenProp.bound] at h1
+    simp only [LenProp.eval, iha (by omega), ihb (by omega)]
+
+theorem foldl_max_bound_ge (conds : List LenProp) :
+    ∀ b0, b0 ≤ conds.foldl (fun b c => max b c.bound) b0 ∧
+      ∀ c ∈ conds, c.bound ≤ conds.foldl (fun b c => max b c.bound) b0 := by
+  induction conds with
+  | nil => intro b0; exact ⟨Nat.le_refl _, fun c hc => by cases hc⟩
+  | cons d ds ih =>
+    intro b0
+    simp only [List.foldl_cons]
+    have h := ih (max b0 d.bound)
+    refine ⟨by have := h.1; omega, ?_⟩
+    intro c hc
+    cases hc with
+    | head => have := h.1; omega
+    | tail _ hm => exact h.2 c hm
+
+theorem bound_le_condsBound (conds : List LenProp) (c : LenProp) (hc : c ∈ conds) : c.bound ≤ condsBound conds :=
+  (foldl_max_bound_ge conds 0).2 c hc
+
+/-- an index check that passes at a length passes at every greater one -/
+theorem ArgIdx.eval_mono (idx : ArgIdx) (L len : Nat) (vlt : Bool) (hL : L ≤ len)
+    (h : idx.eval L vlt = true) : idx.eval len vlt = true := by
+  cases idx with
+  | const k => simp only [ArgIdx.eval, decide_eq_true_eq] at h ⊢; omega
+  | fromEnd k => simp only [ArgIdx.eval, Bool.and_eq_true, decide_eq_true_eq] at h ⊢; omega
+  | var => exact h
+  | sliceFrom a => simp only [ArgIdx.eval, decide_eq_true_eq] at h ⊢; omega
+  | sliceTo b => simp only [ArgIdx.eval, decide_eq_true_eq] at h ⊢; omega
+  | slice a b => simp only [ArgIdx.eval, Bool.and_eq_true, decide_eq_true_eq] at h ⊢; omega
+
+theorem ArgIdx.eval_iff (idx : ArgIdx) (len i : Nat) :
+    idx.eval len (decide (i < len)) = true ↔ idx.inRange len i := by
+  cases idx <;> simp [ArgIdx.eval, ArgIdx.inRange]
+
+/-- **checker soundness**: a site the checker accepts cannot index (or slice) out of range, whatever the length
+    and whatever the value of the index variable -/
+theorem ArgIndexSite.ok_sound (s : ArgIndexSite) (hok : s.ok = true) (len i : Nat)
+    (h : ∀ c ∈ s.conds, c.holds len i) : s.idx.inRange len i := by
+  rw [← ArgIdx.eval_iff]
+  -- the conditions evaluate to true at (len, i < len)
+  have hall : s.conds.all (·.eval len (decide (i < len))) = true := by
+    rw [List.all_eq_true]; intro c hc; exact (LenProp.eval_iff c len i).mpr (h c hc)
+  unfold ArgIndexSite.ok at hok
+  rw [List.all_eq_true] at hok
+  -- the length the checker looked at: len itself, or one past the largest constant
+  let L := min len (condsBound s.conds + 1)
+  have hLmem : L ∈ List.range (condsBound s.conds + 2) := by
+    rw [List.mem_range]; show min len (condsBound s.conds + 1) < _; omega
+  have hLle : L ≤ len := Nat.min_le_left _ _
+  have hat := hok L hLmem
+  rw [Bool.and_eq_true] at hat
+  have hallL : s.conds.all (·.eval L (decide (i < len))) = true := by
+    rw [List.all_eq_true] at hall ⊢
+    intro c hc
+    have hcb := bound_le_condsBound s.conds c hc
+    by_cases hlen : len ≤ condsBound s.conds + 1
+    · have : L = len := Nat.min_eq_left hlen
+      rw [this]; exact hall c hc
+    · have hLe : L = condsBound s.conds + 1 := Nat.min_eq_right (by omega)
+      rw [← LenProp.eval_stable c L len _ (by omega) hLle]
+      exact hall c hc
+  have hidxL : s.idx.eval L (decide (i < len)) = true := by
+    cases hv : decide (i < len) with
+    | true =>
+      have := hat.1
+      unfold ArgIndexSite.okAt at this
+      rw [hv] at hallL
+      simpa [hallL] using this
+    | false =>
+      have := hat.2
+      unfold ArgIndexSite.okAt at this
+      rw [hv] at hallL
+      simpa [hallL] using this
+  exact ArgIdx.eval_mono s.idx L len _ hLle hidxL
+
 /-! generic: a list all of whose elements lie in an EMPTY exception list is empty / meets the predicate -/
 
 theorem all_contains_nil {α β} [BEq β] (l : List α) (g : α → β)
